@@ -340,8 +340,15 @@ def run_shard(shard):
                 sig[key] = {"clause": clause, "disc": disc, "count": 1, "what": "%r target %r mode %r: %s" % (p, target, mode, what), "replay": dict(p=p, target=target, assignment=short(assignment), mode=mode, seed=seed)}
 
     n = 0
+    from mc.core.e2e import HandshakeFailed
+
     for p, target, assignment in cases(tier, variant, ndev, depth):
         sent = None
+        try:
+            execute(p, target, assignment, "whole", seed)
+        except HandshakeFailed as e:
+            record(p, target, assignment, "whole", [("handshake-failed", "kind=%s" % variant, str(e))])
+            break
         for mode in modes(tier, None):
             obs = execute(p, target, assignment, mode, seed)
             res["executions"] += 1
@@ -366,12 +373,15 @@ def run_shard(shard):
     # short histories through ONE client vector object: a later submit must not re-send earlier elements
     p0 = dict(variant=variant, vec_enabled=True, grp_enabled=True, depth=depth, ndev=ndev, ngroups=2)
     seqs, want = seq_cases(variant)
-    for si, steps in enumerate(seqs):
+    try:
+        for si, steps in enumerate(seqs):
+            res["executions"] += 1
+            res["transitions"] += len(steps)
+            record(p0, (0, "TGT"), steps, ("history", si), judge_seq(p0, si))
         res["executions"] += 1
-        res["transitions"] += len(steps)
-        record(p0, (0, "TGT"), steps, ("history", si), judge_seq(p0, si))
-    res["executions"] += 1
-    record(p0, (0, "TGT"), [("back-to-back",)], ("back-to-back", 0), back_to_back(p0))
+        record(p0, (0, "TGT"), [("back-to-back",)], ("back-to-back", 0), back_to_back(p0))
+    except HandshakeFailed as e:
+        record(p0, (0, "TGT"), [], "whole", [("handshake-failed", "kind=%s" % variant, str(e))])
     res["states"] = res["executions"]
     res["violations"] = list(sig.values())
     if variant == "text" and ndev == 2:
